@@ -47,15 +47,19 @@ pub fn fin_fields(g: &Generator) -> String {
         }
         _ => "[]".to_string(),
     };
+    // progress of the engine through the guarded probe (compared with the implementation-shaped
+    // model L2 in lock-step mode; never part of a verdict)
+    let (st, en, lim, isl, idx) = g.verif_probe();
     format!(
-        "\"t\":{},\"n\":{},\"s\":{},\"u\":{},\"sz\":{},\"warn\":{},\"txt\":{}",
+        "\"t\":{},\"n\":{},\"s\":{},\"u\":{},\"sz\":{},\"warn\":{},\"txt\":{},\"probe\":{{\"st\":{},\"en\":{},\"lim\":{},\"isl\":{},\"idx\":{}}}",
         res_json(t),
         res_json(n),
         res_json(s),
         res_json(u),
         jsize(g.input_size()),
         g.may_warn_about_small_input_size(),
-        txt
+        txt,
+        st, en, lim, isl, jarr_u8(&idx)
     )
 }
 
